@@ -12,6 +12,16 @@ TRUSTED_COMMON = [
 ]
 
 
+
+def _xlate(pid):
+    """functions of this property that tools/facts_fn.py translated from /repo on this run (and the ones that fell back)"""
+    try:
+        rep = json.load(open(os.path.join(core.B, 'xlate_report.json')))
+    except (OSError, ValueError):
+        return None
+    return [{k: f.get(k) for k in ('name', 'func', 'file', 'line', 'recognised', 'reason', 'tie', 'theorems', 'skipped', 'notes')}
+            for f in rep.get('functions', []) if pid in f.get('props', [])]
+
 def case_hash(c):
     return hashlib.sha1('\n'.join(c['lines']).encode()).hexdigest()
 
@@ -217,6 +227,7 @@ def _run(mod, tier, seed, replay, pid, t_start, binfo, ps, forb, proofs_ok, head
             'extra': mod.extra_stats(cases, impl) if hasattr(mod, 'extra_stats') else {},
             'build': {k: v for k, v in binfo.items() if k.endswith('_s') or k.endswith('_ok')},
             'srcfacts': binfo.get('srcfacts_log', '')[-1500:],
+            'translated_functions': _xlate(pid),
         },
         'assumptions': list(getattr(mod, 'ASSUMPTIONS', [])),
         'wall_s': round(time.time() - t_start, 1),
